@@ -195,6 +195,12 @@ func Normalize(dir, goarch string, tags []string) (map[string][]byte, []string) 
 		n.classify()
 		changed := n.methodValueClosureRound()
 		if !changed {
+			changed = n.pureExprRound()
+		}
+		if !changed {
+			changed = n.switchInitRound()
+		}
+		if !changed {
 			changed = n.condHoistRound()
 		}
 		if !changed {
@@ -510,20 +516,21 @@ func (n *normalizer) calleeOf(call *ast.CallExpr) (*types.Func, *ast.Ident) {
 }
 
 type site struct {
-	fd     *ast.FuncDecl    // callee declaration (synthesised around a function literal for literal calls)
-	sig    *types.Signature // callee signature (instantiated)
-	lit    *ast.FuncLit
-	chain  map[types.Object]bool
-	call   *ast.CallExpr
-	callee *types.Func
-	id     *ast.Ident
-	stmt   ast.Stmt
-	parent ast.Node // parent of stmt
-	encl   ast.Node // enclosing FuncDecl / FuncLit
-	file   *ast.File
-	stack  []ast.Node  // ancestors of the call, outermost first
-	form   string      // expr, assign, return, nested
-	wrapIf *ast.IfStmt // statement is the Init of / nested in the header of this if
+	fd       *ast.FuncDecl    // callee declaration (synthesised around a function literal for literal calls)
+	sig      *types.Signature // callee signature (instantiated)
+	lit      *ast.FuncLit
+	chain    map[types.Object]bool
+	call     *ast.CallExpr
+	callee   *types.Func
+	id       *ast.Ident
+	stmt     ast.Stmt
+	parent   ast.Node // parent of stmt
+	encl     ast.Node // enclosing FuncDecl / FuncLit
+	file     *ast.File
+	stack    []ast.Node  // ancestors of the call, outermost first
+	form     string      // expr, assign, return, nested
+	wrapIf   *ast.IfStmt // statement is the Init of / nested in the header of this if
+	recvInst *types.Var  // receiver of the instantiated method (methods of generic types)
 }
 
 func (n *normalizer) off(p token.Pos) int { return n.fset.PositionFor(p, false).Offset }
@@ -572,9 +579,19 @@ func (n *normalizer) inlineRound() bool {
 			}
 			callee, id := n.calleeOf(call)
 			var s *site
+			var instSig *types.Signature
+			if callee != nil && callee.Origin() != callee {
+				// a method of an instantiated generic type: the declaration is the origin's, the signature the instance's
+				instSig, _ = callee.Type().(*types.Signature)
+				callee = callee.Origin()
+			}
 			if callee != nil && n.helpers[callee] {
 				s = &site{call: call, callee: callee, id: id, file: f, fd: n.decls[callee]}
 				s.sig = callee.Type().(*types.Signature)
+				if instSig != nil {
+					s.sig = instSig
+					s.recvInst = instSig.Recv()
+				}
 				if inst, ok := n.info.Instances[id]; ok {
 					if isig, ok := inst.Type.(*types.Signature); ok {
 						s.sig = isig
@@ -2761,6 +2778,27 @@ func (n *normalizer) inlineSite(filename string, s *site) (done bool) {
 				rename[gsig.TypeParams().At(i).Obj()] = tt
 			}
 		}
+		// a method of a generic type: the receiver's type parameters stand for the type arguments of the receiver at this site
+		if gsig, ok := s.callee.Type().(*types.Signature); ok && gsig.RecvTypeParams().Len() > 0 {
+			if s.recvInst == nil {
+				return n.reject(s, 37)
+			}
+			rt := s.recvInst.Type()
+			if p, isPtr := rt.(*types.Pointer); isPtr {
+				rt = p.Elem()
+			}
+			named, isNamed := rt.(*types.Named)
+			if !isNamed || named.TypeArgs().Len() != gsig.RecvTypeParams().Len() {
+				return n.reject(s, 37)
+			}
+			for i := 0; i < gsig.RecvTypeParams().Len(); i++ {
+				tt, ok := n.typeText(named.TypeArgs().At(i), s.file, filename)
+				if !ok {
+					return n.reject(s, 34)
+				}
+				rename[gsig.RecvTypeParams().At(i).Obj()] = tt
+			}
+		}
 	}
 	ast.Inspect(fd.Body, func(x ast.Node) bool {
 		if ls, ok := x.(*ast.LabeledStmt); ok {
@@ -2832,6 +2870,10 @@ func (n *normalizer) inlineSite(filename string, s *site) (done bool) {
 		}
 		for i, l := range as.Lhs {
 			id := l.(*ast.Ident)
+			if id.Name != "_" && (as.Tok != token.DEFINE || n.info.Defs[id] == nil) {
+				// an existing variable: it may lose its last read when the test after the call is specialised
+				fmt.Fprintf(&pre, "_ = %s\n", id.Name)
+			}
 			if id.Name == "_" || as.Tok != token.DEFINE || n.info.Defs[id] == nil {
 				continue
 			}
@@ -3137,6 +3179,9 @@ func (n *normalizer) deleteRound() bool {
 	used := map[types.Object]bool{}
 	for _, obj := range n.info.Uses {
 		used[obj] = true
+		if fn, ok := obj.(*types.Func); ok {
+			used[fn.Origin()] = true // a method of an instantiated generic type
+		}
 	}
 	changed := false
 	type rng struct{ a, b token.Pos }
@@ -3334,6 +3379,14 @@ func specialiseIf(th *threadSpec, ret *ast.ReturnStmt, known int, deferredRan bo
 		}
 		e, neg = ast.Unparen(ue.X), !neg
 	}
+	if id, isId := e.(*ast.Ident); isId && !deferredRan {
+		// a boolean variable (`return !ok`): tested directly
+		var cond ast.Expr = id
+		if neg {
+			cond = &ast.UnaryExpr{Op: token.NOT, X: id}
+		}
+		return []ast.Stmt{&ast.IfStmt{Cond: cond, Body: whole.Body, Else: whole.Else}}
+	}
 	be, ok := e.(*ast.BinaryExpr)
 	if !ok {
 		return []ast.Stmt{whole}
@@ -3465,6 +3518,17 @@ func (n *normalizer) funcValueUses() map[*types.Func]bool {
 			for i >= 0 {
 				if p, isParen := stack[i].(*ast.ParenExpr); isParen {
 					expr = p
+					i--
+					continue
+				}
+				// explicit instantiation of a generic function: f[T](…)
+				if ix, isIx := stack[i].(*ast.IndexExpr); isIx && ix.X == expr {
+					expr = ix
+					i--
+					continue
+				}
+				if ix, isIx := stack[i].(*ast.IndexListExpr); isIx && ix.X == expr {
+					expr = ix
 					i--
 					continue
 				}
